@@ -1,33 +1,48 @@
 //! C13: the watchdog can stop the analysis at any poll and is polled as often as promised.
 //! Bounded stand-in over the property's own quantifier (NOT a proof): a counting `Watchdog` that answers
 //! "continue" for polls 0..k and "stop" from poll index k on is handed to the REAL pipeline
-//! (`storage_layout_extractor::new(..).analyze()`, and to `VM` / `TypeChecker` phases called one by one for the
-//! accounting), for small programs that spend their time in each polled loop, poll intervals {1, 2, 7, 100}
+//! (`storage_layout_extractor::new(..).analyze()`; `VM` and the `TypeChecker` phases are also called one by one for
+//! the accounting), for small programs that spend their time in each polled loop, poll intervals {1, 2, 7, 100}
 //! and every k below the total number of polls of the run (all of them when the run makes <= 300 polls,
 //! stratified - first/last polls, every stage boundary +-2, evenly spaced in between - otherwise).
 //!
+//! Which loop made a given poll is known without touching the repository: every polled loop asks `poll_every()`
+//! exactly once right before it starts, so the watchdog records the poll count at each such call; inside the VM
+//! phase of a straight-line program the owner is computed from the byte offsets (the main loop makes one iteration
+//! per BYTE of code - push data bytes are executed as no-ops - and a copy loop runs inside the iteration of its
+//! opcode).
+//!
 //! Obligations (names as printed in WITNESS lines):
 //!  * `c13.never_stop_equals_unmonitored`  a counting watchdog that never says stop gives the `LazyWatchdog` result
+//!                                         (also when the run ended before the k-th poll was ever made)
 //!  * `c13.stop_at_poll_k_returns_stopped` once some poll answered stop, `analyze` returns an error that contains
 //!                                         `StoppedByWatchdog` (execution or unification kind) - never a layout,
 //!                                         never a panic, never only other errors
-//!  * `c13.bounded_polls_after_stop`       after the first "stop" answer at most `MAX_POLLS_AFTER_STOP` more polls
-//!                                         are made (a stop seen by a bulk-copy loop only ends that thread: the VM main
-//!                                         loop goes on until ITS next poll or until another copy loop polls)
+//!  * `c13.single_stop_answer_is_honoured` the same when the watchdog answers stop at poll k ONLY (a loop that
+//!                                         swallows one stop answer and goes on is caught here)
+//!  * `c13.bounded_polls_after_stop`       polls made after the first "stop" answer: 0 when the VM main loop or a
+//!                                         type-checker loop saw it (they return at that very poll), at most
+//!                                         `MAX_POLLS_AFTER_COPY_STOP` when a bulk-copy loop saw it (its error only
+//!                                         ends the thread; the main loop goes on until ITS next poll or until another
+//!                                         copy loop polls)
 //!  * `c13.bounded_polls_after_stop.copy_stop_only_ends_thread`  the same bound on the fork-fan programs, where it
-//!                                         does not hold on the current tree (see FAN below) - kept under its own name
+//!                                         does NOT hold on the current tree (see `fan_program`) - kept under its own name
 //!  * `c13.polls_track_work`               polls made by a loop == ceil(iterations / poll_every): VM main loop over a
-//!                                         straight-line program of n instructions, every bulk copy of s bytes
+//!                                         straight-line program of n code bytes, every bulk copy of s bytes
 //!                                         (iterations = ceil(min(s, limit) / 32)), lifting, variable assignment,
-//!                                         inference, layout building; unification at least once per pass
-//!  * `c13.poll_count_reproducible`        two identical monitored runs make the same number of polls (the driver's
-//!                                         own premise for "poll k of the run")
-//!  * `c13.driver_reaches_every_loop`      every one of the ten polled loops was interrupted at least once
+//!                                         inference, layout building; unification at least once
+//!  * `c13.driver_reaches_every_loop`      with poll_every = 1 every polled loop the program runs was interrupted
+//!  * `c13.driver_config_matches_default`  the driver's type-checker configuration (default passes sharing ONE slot-hash
+//!                                         table, 300 ms to build) gives the result of `tc::Config::default()`
 use std::{
+    cell::RefCell,
     collections::BTreeSet,
     panic::{catch_unwind, AssertUnwindSafe},
     rc::Rc,
-    sync::atomic::{AtomicUsize, Ordering},
+    sync::{
+        atomic::{AtomicUsize, Ordering},
+        OnceLock,
+    },
 };
 
 use itertools::Itertools;
@@ -39,42 +54,58 @@ use storage_layout_extractor::{
         chain::{version::EthereumVersion, Chain},
         contract::Contract,
     },
-    tc::{self, TypeChecker},
-    vm::{
+    tc::{
         self,
-        value::TCSVD,
-        VM,
+        lift::{
+            dynamic_array_access::DynamicArrayIndex, mapping_index::MappingIndex, mapping_offset::MappingOffset, mul_shifted::MulShiftedValue,
+            packed_encoding::PackedEncoding, proxy_slots::ProxySlots, recognise_hashed_slots::StorageSlotHashes, storage_slots::StorageSlots,
+            sub_word::SubWordValue, Lift, LiftingPasses,
+        },
+        rule::InferenceRules,
+        TypeChecker,
     },
+    vm::{self, value::TCSVD, VM},
     watchdog::{DynWatchdog, LazyWatchdog, Watchdog},
     StorageLayout,
 };
 
 use crate::{scale, witness};
 
-/// Observed on the current tree over the regular programs below: 0 when the stop is seen by the VM main loop or by
-/// a type-checker loop (they return at that very poll), 1 when it is seen by a bulk-copy loop of a program that
-/// still has another thread or instruction to run (the copy's error only ends the thread; the main loop - or the
-/// next copy loop - polls once more and then gives up).
-const MAX_POLLS_AFTER_STOP: usize = 1;
+/// Observed on the current tree over the regular programs below: a stop first seen by a bulk-copy loop is followed
+/// by at most ONE more poll (the copy's error only ends its thread; the main loop - or the next copy loop - polls
+/// once more and then the run is over).  A stop seen by the VM main loop or a type-checker loop is followed by none.
+const MAX_POLLS_AFTER_COPY_STOP: usize = 1;
 
 const INTERVALS: [usize; 4] = [1, 2, 7, 100];
+
+/// WITNESS lines printed per obligation for one (program, interval); the rest is counted in a SUPPRESSED line
+const REPORTS: usize = 3;
 
 // ------------------------------------------------------------------------------------------------------------
 // the counting watchdog
 // ------------------------------------------------------------------------------------------------------------
 
-/// Answers "continue" to polls 0..stop_from and "stop" to every poll from index `stop_from` on; counts polls.
+/// Answers "stop" to the polls with index in `stop_from..stop_until` and "continue" to all others; counts polls and
+/// remembers the poll count at every `poll_every()` call (= the start of a polled loop).
 #[derive(Debug)]
 pub struct CountingWatchdog {
-    every:      usize,
-    stop_from:  Option<usize>,
-    polls:      AtomicUsize,
-    first_stop: AtomicUsize,
+    every:       usize,
+    stop_from:   usize,
+    stop_until:  usize,
+    polls:       AtomicUsize,
+    first_stop:  AtomicUsize,
+    loop_starts: RefCell<Vec<usize>>,
 }
 
 impl CountingWatchdog {
-    pub fn new(every: usize, stop_from: Option<usize>) -> Rc<Self> {
-        Rc::new(Self { every, stop_from, polls: AtomicUsize::new(0), first_stop: AtomicUsize::new(usize::MAX) })
+    /// never stops
+    pub fn counting(every: usize) -> Rc<Self> { Self::stopping(every, usize::MAX, usize::MAX) }
+    /// stops from poll `k` on
+    pub fn stop_from(every: usize, k: usize) -> Rc<Self> { Self::stopping(every, k, usize::MAX) }
+    /// answers stop at poll `k` only
+    pub fn stop_once(every: usize, k: usize) -> Rc<Self> { Self::stopping(every, k, k + 1) }
+    fn stopping(every: usize, stop_from: usize, stop_until: usize) -> Rc<Self> {
+        Rc::new(Self { every, stop_from, stop_until, polls: AtomicUsize::new(0), first_stop: AtomicUsize::new(usize::MAX), loop_starts: RefCell::new(vec![]) })
     }
     pub fn in_rc(self: &Rc<Self>) -> DynWatchdog { self.clone() }
     pub fn polls(&self) -> usize { self.polls.load(Ordering::SeqCst) }
@@ -83,20 +114,24 @@ impl CountingWatchdog {
         let v = self.first_stop.load(Ordering::SeqCst);
         if v == usize::MAX { None } else { Some(v) }
     }
+    /// poll count at each `poll_every()` call so far
+    pub fn loop_starts(&self) -> Vec<usize> { self.loop_starts.borrow().clone() }
 }
 
 impl Watchdog for CountingWatchdog {
     fn should_stop(&self) -> bool {
         let k = self.polls.fetch_add(1, Ordering::SeqCst);
-        match self.stop_from {
-            Some(s) if k >= s => {
-                self.first_stop.fetch_min(k, Ordering::SeqCst);
-                true
-            }
-            _ => false,
+        if self.stop_from <= k && k < self.stop_until {
+            self.first_stop.fetch_min(k, Ordering::SeqCst);
+            true
+        } else {
+            false
         }
     }
-    fn poll_every(&self) -> usize { self.every }
+    fn poll_every(&self) -> usize {
+        self.loop_starts.borrow_mut().push(self.polls());
+        self.every
+    }
 }
 
 // ------------------------------------------------------------------------------------------------------------
@@ -106,28 +141,23 @@ impl Watchdog for CountingWatchdog {
 #[derive(Default, Clone)]
 struct Asm {
     code: Vec<u8>,
-    /// number of instructions emitted
-    n:    usize,
 }
 impl Asm {
-    fn op(&mut self, b: u8) -> &mut Self { self.code.push(b); self.n += 1; self }
-    fn ops(&mut self, bs: &[u8]) -> &mut Self { for b in bs { self.op(*b); } self }
+    fn op(&mut self, b: u8) -> &mut Self { self.code.push(b); self }
     /// PUSH1..PUSH4 of `v`
     fn push(&mut self, v: u64) -> &mut Self {
         let len = if v < 1 << 8 { 1 } else if v < 1 << 16 { 2 } else if v < 1 << 24 { 3 } else { 4 };
         self.code.push(0x5f + len as u8);
         for i in (0..len).rev() { self.code.push((v >> (8 * i)) as u8); }
-        self.n += 1;
         self
     }
-    /// PUSHn of the low n bytes all 0xff
+    /// PUSHn of n bytes 0xff
     fn push_mask(&mut self, bytes: usize) -> &mut Self {
         self.code.push(0x5f + bytes as u8);
         self.code.extend(std::iter::repeat(0xff).take(bytes));
-        self.n += 1;
         self
     }
-    fn here(&self) -> u64 { self.code.len() as u64 }
+    fn here(&self) -> usize { self.code.len() }
 }
 
 const STOP: u8 = 0x00;
@@ -147,7 +177,6 @@ const MLOAD: u8 = 0x51;
 const MSTORE: u8 = 0x52;
 const SLOAD: u8 = 0x54;
 const SSTORE: u8 = 0x55;
-const JUMP: u8 = 0x56;
 const JUMPI: u8 = 0x57;
 const GAS: u8 = 0x5a;
 const JUMPDEST: u8 = 0x5b;
@@ -159,22 +188,38 @@ const MEM_LIMIT: usize = 4096;
 /// `CONTRACT_MAXIMUM_SIZE_BYTES`, the bound CODECOPY / EXTCODECOPY use
 const CODE_LIMIT: usize = 24_576;
 
+// names of the polled loops
+const MAIN: &str = "vm main loop";
+const VM_ANY: &str = "vm (main loop or a copy loop)";
+const TC_STAGES: [&str; 5] = ["lift", "assign_vars", "infer", "unification", "layout"];
+
 #[derive(Clone, Copy, PartialEq, Eq, Debug)]
 enum Copy { CallData, Code, ExtCode, ReturnData, Call, DelegateCall }
 impl Copy {
     fn limit(self) -> usize { match self { Copy::Code | Copy::ExtCode => CODE_LIMIT, _ => MEM_LIMIT } }
+    /// `(0..min(size, limit)).step_by(32)` makes ceil(min(size, limit) / 32) iterations
     fn iterations(self, size: usize) -> usize { (size.min(self.limit()) + 31) / 32 }
-    /// emits the instruction with a constant `size` operand, then drops what it leaves on the stack
-    fn emit(self, a: &mut Asm, size: u64) {
+    fn loop_name(self) -> &'static str {
         match self {
-            Copy::CallData => { a.push(size).push(0).push(0).op(CALLDATACOPY); }
-            Copy::Code => { a.push(size).push(0).push(0).op(CODECOPY); }
-            Copy::ReturnData => { a.push(size).push(0).push(0).op(RETURNDATACOPY); }
-            Copy::ExtCode => { a.push(size).push(0).push(0).op(ADDRESS).op(EXTCODECOPY); }
+            Copy::CallData => "CallDataCopy loop",
+            Copy::Code => "CodeCopy loop",
+            Copy::ExtCode => "ExtCodeCopy loop",
+            Copy::ReturnData => "ReturnDataCopy loop",
+            Copy::Call | Copy::DelegateCall => "store_return_data loop",
+        }
+    }
+    /// emits the instruction with a constant `size` operand (and drops what it leaves on the stack); returns the byte
+    /// offset of the copying opcode
+    fn emit(self, a: &mut Asm, size: u64) -> usize {
+        match self {
+            Copy::CallData => { a.push(size).push(0).push(0).op(CALLDATACOPY); a.here() - 1 }
+            Copy::Code => { a.push(size).push(0).push(0).op(CODECOPY); a.here() - 1 }
+            Copy::ReturnData => { a.push(size).push(0).push(0).op(RETURNDATACOPY); a.here() - 1 }
+            Copy::ExtCode => { a.push(size).push(0).push(0).op(ADDRESS).op(EXTCODECOPY); a.here() - 1 }
             // retSize retOffset argSize argOffset value address gas
-            Copy::Call => { a.push(size).push(0).push(0).push(0).push(0).op(CALLER).op(GAS).op(CALL).op(POP); }
+            Copy::Call => { a.push(size).push(0).push(0).push(0).push(0).op(CALLER).op(GAS).op(CALL).op(POP); a.here() - 2 }
             // retSize retOffset argSize argOffset address gas
-            Copy::DelegateCall => { a.push(size).push(0).push(0).push(0).op(CALLER).op(GAS).op(DELEGATECALL).op(POP); }
+            Copy::DelegateCall => { a.push(size).push(0).push(0).push(0).op(CALLER).op(GAS).op(DELEGATECALL).op(POP); a.here() - 2 }
         }
     }
 }
@@ -184,12 +229,31 @@ struct Prog {
     name:       String,
     code:       Vec<u8>,
     permissive: bool,
-    /// number of instructions the VM executes, when the program is straight-line
-    straight:   Option<usize>,
-    /// iterations of each bulk-copy loop the program runs, when it is straight-line
-    copies:     Vec<usize>,
+    /// no jumps: the VM main loop makes exactly one iteration per code byte
+    straight:   bool,
+    /// (byte offset of the opcode, which loop, iterations) of each bulk copy the program runs
+    copies:     Vec<(usize, Copy, usize)>,
     /// fork-fan program (class `copy_stop_only_ends_thread`)
     fan:        bool,
+}
+
+impl Prog {
+    fn straight(name: String, a: Asm, permissive: bool, copies: Vec<(usize, Copy, usize)>) -> Self { Prog { name, code: a.code, permissive, straight: true, copies, fan: false } }
+
+    /// The polls the VM makes on a straight-line program, in order, each with the loop that makes it.  Written from
+    /// the statement "polls once per `poll_every` iterations, starting with the first": a loop whose counter runs
+    /// 0, 1, .., n-1 polls when `counter % poll_every == 0`, i.e. ceil(n / poll_every) times, the first time BEFORE
+    /// any work is done (the off-by-one: one poll even for a single iteration, none for zero iterations).
+    fn vm_polls(&self, every: usize) -> Vec<&'static str> {
+        let mut v = vec![];
+        for c in 0..self.code.len() {
+            if c % every == 0 { v.push(MAIN); }
+            for (at, kind, iterations) in &self.copies {
+                if *at == c { for i in 0..*iterations { if i % every == 0 { v.push(kind.loop_name()); } } }
+            }
+        }
+        v
+    }
 }
 
 /// storage traffic the type checker has work with: word-sized, masked (packed), mapping and dynamic-array accesses
@@ -211,44 +275,45 @@ fn storage_traffic(a: &mut Asm, slots: u64) {
 
 fn programs() -> Vec<Prog> {
     let mut v = vec![];
-    // 1. straight-line: VM main loop, and the type checker's five loops through the storage traffic
+    // 0. straight-line: VM main loop, and the type checker's five loops through the storage traffic
     let mut a = Asm::default();
     for _ in 0..23 { a.op(JUMPDEST); }
     storage_traffic(&mut a, 12);
     a.op(STOP);
-    v.push(Prog { name: "straight-line storage traffic".into(), straight: Some(a.n), code: a.code, permissive: false, copies: vec![], fan: false });
-    // 2. looping code: JUMPDEST sstore(0, sload(0) + 1) CALLDATASIZE PUSH1 0 JUMPI STOP (ends through the visit / fork limits)
+    v.push(Prog::straight("straight-line storage traffic".into(), a, false, vec![]));
+    // 1. looping code: JUMPDEST sstore(0, sload(0) + 1) CALLDATASIZE PUSH1 0 JUMPI .. STOP (ends through the visit / fork limits)
     let mut a = Asm::default();
     a.op(JUMPDEST).push(1).push(0).op(SLOAD).op(ADD).push(0).op(SSTORE).op(CALLDATASIZE).push(0).op(JUMPI);
     storage_traffic(&mut a, 3);
     a.op(STOP);
-    v.push(Prog { name: "loop with storage traffic".into(), straight: None, code: a.code, permissive: true, copies: vec![], fan: false });
-    // 3-8. one bulk copy each, with the copied memory then read and stored so that the later stages see it
+    v.push(Prog { name: "loop with storage traffic".into(), code: a.code, permissive: true, straight: false, copies: vec![], fan: false });
+    // 2-7. one bulk copy each (constant size), the copied memory then read and stored so that the later stages see it
     for (c, size, permissive) in [(Copy::CallData, 1500u64, false), (Copy::Code, 2100, true), (Copy::ExtCode, 1000, false), (Copy::ReturnData, 5000, true),
                                   (Copy::Call, 1300, false), (Copy::DelegateCall, 700, true)] {
         let mut a = Asm::default();
         a.push(7).push(1).op(SSTORE);
-        c.emit(&mut a, size);
+        let at = c.emit(&mut a, size);
         a.push(0x40).op(MLOAD).push(2).op(SSTORE);
         storage_traffic(&mut a, 2);
         a.op(STOP);
-        v.push(Prog { name: format!("{c:?} copy of {size} bytes"), straight: Some(a.n), code: a.code, permissive, copies: vec![c.iterations(size as usize)], fan: false });
+        v.push(Prog::straight(format!("{c:?} copy of {size} bytes"), a, permissive, vec![(at, c, c.iterations(size as usize))]));
     }
-    // 9. two copies in a row and one in a second thread: CALLDATASIZE PUSH t JUMPI <copy> <copy> STOP JUMPDEST <copy> STOP
+    // 8. two copies in a row and one in a second thread: CALLDATASIZE PUSH2 t JUMPI <copy> <copy> .. STOP JUMPDEST <copy> .. STOP
     let mut a = Asm::default();
     a.op(CALLDATASIZE);
-    let patch = a.code.len() + 1;
+    let patch = a.here() + 1;
     a.push(0xffff).op(JUMPI);
-    Copy::CallData.emit(&mut a, 400);
-    Copy::Code.emit(&mut a, 300);
+    let c0 = Copy::CallData.emit(&mut a, 400);
+    let c1 = Copy::Code.emit(&mut a, 300);
     a.push(1).push(0).op(SSTORE).op(STOP);
     let t = a.here();
     a.code[patch] = (t >> 8) as u8;
     a.code[patch + 1] = t as u8;
     a.op(JUMPDEST);
-    Copy::ReturnData.emit(&mut a, 500);
+    let c2 = Copy::ReturnData.emit(&mut a, 500);
     a.push(1).push(1).op(SSTORE).op(STOP);
-    v.push(Prog { name: "copies in two threads".into(), straight: None, code: a.code, permissive: false, copies: vec![], fan: false });
+    v.push(Prog { name: "copies in two threads".into(), code: a.code, permissive: false, straight: false,
+                  copies: vec![(c0, Copy::CallData, 13), (c1, Copy::Code, 10), (c2, Copy::ReturnData, 16)], fan: false });
     v
 }
 
@@ -256,24 +321,25 @@ fn programs() -> Vec<Prog> {
 /// first seen by one of those copy loops, only that thread ends; every other waiting thread runs into its own
 /// copy loop and polls again before the VM main loop's counter reaches the next multiple of the interval.
 fn fan_program(width: usize) -> Prog {
-    // CALLDATASIZE PUSH2 t_i JUMPI  (x width)  STOP   then per target: JUMPDEST <copy 64 bytes> STOP
+    // CALLDATASIZE PUSH2 t_i JUMPI  (x width)  PUSH1 1 PUSH1 0 SSTORE STOP   then per target: JUMPDEST <copy 64 bytes> STOP
     let mut a = Asm::default();
     let mut patches = vec![];
     for _ in 0..width {
         a.op(CALLDATASIZE);
-        patches.push(a.code.len() + 1);
+        patches.push(a.here() + 1);
         a.push(0xffff).op(JUMPI);
     }
     a.push(1).push(0).op(SSTORE).op(STOP);
+    let mut copies = vec![];
     for p in patches {
         let t = a.here();
         a.code[p] = (t >> 8) as u8;
         a.code[p + 1] = t as u8;
         a.op(JUMPDEST);
-        Copy::CallData.emit(&mut a, 64);
+        copies.push((Copy::CallData.emit(&mut a, 64), Copy::CallData, 2));
         a.op(STOP);
     }
-    Prog { name: format!("fan of {width} threads into CALLDATACOPY"), straight: None, code: a.code, permissive: false, copies: vec![], fan: true }
+    Prog { name: format!("fan of {width} threads into CALLDATACOPY"), code: a.code, permissive: false, straight: false, copies, fan: true }
 }
 
 // ------------------------------------------------------------------------------------------------------------
@@ -292,7 +358,7 @@ impl Outcome {
     fn class(&self) -> String {
         match self {
             Outcome::Layout(l) => format!("Ok(layout with {} slots)", l.slots().len()),
-            Outcome::Stopped { entries, stops } => format!("Err({entries} errors, {stops} StoppedByWatchdog)"),
+            Outcome::Stopped { entries, stops } => format!("Err({entries} errors, {stops} of them StoppedByWatchdog)"),
             Outcome::OtherError(e) => format!("Err without StoppedByWatchdog: {e}"),
             Outcome::Panic => "PANIC".into(),
         }
@@ -316,97 +382,81 @@ fn classify(r: std::thread::Result<error::Result<StorageLayout>>) -> Outcome {
 
 fn vm_config(p: &Prog) -> vm::Config { vm::Config::default().with_memory_max_bytes(MEM_LIMIT).with_permissive_errors(p.permissive) }
 
+/// `tc::Config::default()` with ONE table of slot hashes shared by all runs (building the table takes 300 ms in the
+/// test profile; the pass only reads it).  The pass list is `LiftingPasses::default()`'s; `c13.driver_config_matches_default`
+/// compares the two configurations on every program.
+fn tc_config() -> tc::Config {
+    static HASHES: OnceLock<StorageSlotHashes> = OnceLock::new();
+    let hashes = HASHES.get_or_init(|| *StorageSlotHashes::new());
+    let passes: Vec<Box<dyn Lift>> = vec![
+        Box::new(hashes.clone()), ProxySlots::new(), MappingIndex::new(), SubWordValue::new(), MulShiftedValue::new(), PackedEncoding::new(),
+        DynamicArrayIndex::new(), StorageSlots::new(), MappingOffset::new(),
+    ];
+    tc::Config { lifting_passes: LiftingPasses::new(passes), inference_rules: InferenceRules::default() }
+}
+
 /// the whole analysis through the public entry point
-fn analyze(p: &Prog, wd: DynWatchdog) -> Outcome {
+fn analyze(p: &Prog, tc_cfg: tc::Config, wd: DynWatchdog) -> Outcome {
     let code = p.code.clone();
     let cfg = vm_config(p);
     classify(catch_unwind(AssertUnwindSafe(move || {
         let contract = Contract::new(code, Chain::Ethereum { version: EthereumVersion::Shanghai });
-        sle::new(contract, cfg, tc::Config::default(), wd).analyze()
+        sle::new(contract, cfg, tc_cfg, wd).analyze()
     })))
 }
-
-const STAGES: [&str; 6] = ["vm", "lift", "assign_vars", "infer", "unification", "layout"];
 
 /// poll accounting of one never-stopping run, stage by stage (the same calls `analyze` / `TypeChecker::run` make)
 #[derive(Debug, Default, Clone)]
 struct Account {
-    /// polls made by each stage
-    polls: [usize; 6],
-    /// loop iterations of each stage where the driver can count them independently: unique values entering `lift`,
-    /// values entering `assign_vars`, registered values seen by `infer`, constant storage slots seen by the layout loop
-    work:  [Option<usize>; 6],
-    ok:    bool,
-}
-impl Account {
-    fn total(&self) -> usize { self.polls.iter().sum() }
-    /// cumulative poll index at which each stage ends
-    fn marks(&self) -> Vec<usize> { self.polls.iter().scan(0, |s, x| { *s += x; Some(*s) }).collect() }
-    fn stage_of(&self, k: usize) -> &'static str {
-        let m = self.marks();
-        for (i, e) in m.iter().enumerate() { if k < *e { return STAGES[i]; } }
-        "past the end"
-    }
+    /// polls made by the VM, and how many loops it started (`poll_every()` calls)
+    vm_polls:  usize,
+    vm_loops:  usize,
+    /// polls made by lift, assign_vars, infer, unification, layout
+    tc_polls:  [usize; 5],
+    /// loop iterations the driver can count independently: unique values entering `lift`, values entering
+    /// `assign_vars`, registered values seen by `infer`, (unification: none), constant storage slots of the layout loop
+    work:      [Option<usize>; 5],
+    /// how many loops `TypeChecker::unify` started (2 on the current tree: unification, layout)
+    unify_loops: usize,
+    ok:        bool,
 }
 
 fn account(p: &Prog, every: usize) -> Option<Account> {
-    let r = catch_unwind(AssertUnwindSafe(|| {
-        let wd = CountingWatchdog::new(every, None);
+    catch_unwind(AssertUnwindSafe(|| {
+        let wd = CountingWatchdog::counting(every);
         let mut acc = Account::default();
         let is = InstructionStream::try_from(p.code.as_slice()).ok()?;
         let mut vm = VM::new(is, vm_config(p), wd.in_rc()).ok()?;
         let exec = vm.execute();
-        acc.polls[0] = wd.polls();
+        acc.vm_polls = wd.polls();
+        acc.vm_loops = wd.loop_starts().len();
         if exec.is_err() { return Some(acc); }
         let result = vm.consume();
-        acc.work[1] = Some(result.clone().all_values().into_iter().unique().count());
-        let mut t = TypeChecker::new(tc::Config::default(), wd.in_rc());
+        acc.work[0] = Some(result.clone().all_values().into_iter().unique().count());
+        let mut t = TypeChecker::new(tc_config(), wd.in_rc());
         let mut seen = wd.polls();
         let lifted = t.lift(result).ok()?;
-        acc.polls[1] = wd.polls() - seen;
+        acc.tc_polls[0] = wd.polls() - seen;
         seen = wd.polls();
-        acc.work[2] = Some(lifted.len());
+        acc.work[1] = Some(lifted.len());
         t.assign_vars(lifted).ok()?;
-        acc.polls[2] = wd.polls() - seen;
+        acc.tc_polls[1] = wd.polls() - seen;
         seen = wd.polls();
-        acc.work[3] = Some(t.state().values().len());
+        acc.work[2] = Some(t.state().values().len());
         t.infer().ok()?;
-        acc.polls[3] = wd.polls() - seen;
+        acc.tc_polls[2] = wd.polls() - seen;
         seen = wd.polls();
-        // `TypeChecker::unify` = unification::unify + the layout loop; the split between the two is measured by
-        // `unification_polls` on a second, identical run
+        // `TypeChecker::unify` = unification::unify + the layout loop; the second `poll_every()` call marks the split
+        let loops_before = wd.loop_starts().len();
         let layout = t.unify();
-        acc.polls[4] = wd.polls() - seen;
-        acc.work[5] = Some(t.state().values().iter().filter(|v| matches!(v.data(), TCSVD::StorageSlot { key } if matches!(key.data(), TCSVD::KnownData { .. }))).count());
+        let starts = wd.loop_starts()[loops_before..].to_vec();
+        acc.unify_loops = starts.len();
+        let split = if starts.len() >= 2 { starts[starts.len() - 1] } else { wd.polls() };
+        acc.tc_polls[3] = split - seen;
+        acc.tc_polls[4] = wd.polls() - split;
+        acc.work[4] = Some(t.state().values().iter().filter(|v| matches!(v.data(), TCSVD::StorageSlot { key } if matches!(key.data(), TCSVD::KnownData { .. }))).count());
         acc.ok = layout.is_ok();
         Some(acc)
-    }));
-    let mut acc = r.ok().flatten()?;
-    if acc.ok {
-        let u = unification_polls(p, every)?;
-        if u <= acc.polls[4] {
-            acc.polls[5] = acc.polls[4] - u;
-            acc.polls[4] = u;
-        }
-    }
-    Some(acc)
-}
-
-/// polls made by `unification::unify` alone (same pipeline up to `infer`, then the function called directly)
-fn unification_polls(p: &Prog, every: usize) -> Option<usize> {
-    catch_unwind(AssertUnwindSafe(|| {
-        let wd = CountingWatchdog::new(every, None);
-        let is = InstructionStream::try_from(p.code.as_slice()).ok()?;
-        let mut vm = VM::new(is, vm_config(p), wd.in_rc()).ok()?;
-        vm.execute().ok()?;
-        let mut t = TypeChecker::new(tc::Config::default(), wd.in_rc());
-        let lifted = t.lift(vm.consume()).ok()?;
-        t.assign_vars(lifted).ok()?;
-        t.infer().ok()?;
-        let seen = wd.polls();
-        let dynwd = wd.in_rc();
-        tc::unification::unify(unsafe { t.state_mut() }, &dynwd).ok()?;
-        Some(wd.polls() - seen)
     }))
     .ok()
     .flatten()
@@ -428,130 +478,171 @@ fn stop_points(n: usize, marks: &[usize]) -> Vec<usize> {
     s.into_iter().collect()
 }
 
-/// stop at every selected poll of every (program, interval); returns (cases, max polls after stop, stages interrupted)
-fn stop_everywhere(p: &Prog, every: usize, reached: &mut BTreeSet<&'static str>) -> (usize, usize) {
-    let input = |k: Option<usize>| format!("program={} code={} poll_every={every} permissive={} stop_from_poll={}", p.name, hex(&p.code), p.permissive, k.map_or("never".into(), |k| k.to_string()));
-    // (1) never stopping == unmonitored, and the poll count of the run
-    let unmonitored = analyze(p, LazyWatchdog.in_rc());
-    let wd = CountingWatchdog::new(every, None);
-    let monitored = analyze(p, wd.in_rc());
+/// which loop made poll `k` of a run whose watchdog is `wd`
+fn owner(p: &Prog, every: usize, acc: &Account, wd: &CountingWatchdog, k: usize) -> &'static str {
+    if k < acc.vm_polls {
+        if p.straight { return p.vm_polls(every).get(k).copied().unwrap_or(VM_ANY); }
+        return if p.copies.is_empty() { MAIN } else { VM_ANY };
+    }
+    // type-checker phase: the last loop started at or before poll k
+    let starts = wd.loop_starts();
+    let mut name = "after the vm, before any type-checker loop";
+    for (i, s) in starts.iter().enumerate().skip(acc.vm_loops) {
+        if *s <= k { name = TC_STAGES.get(i - acc.vm_loops).copied().unwrap_or("a loop after layout building"); }
+    }
+    name
+}
+
+/// stop at every selected poll of one (program, interval); returns (cases, max polls after a stop)
+fn stop_everywhere(p: &Prog, every: usize, unmonitored: &Outcome, reached: &mut BTreeSet<&'static str>) -> (usize, usize) {
+    let input = |k: String| format!("program={} code={} poll_every={every} permissive={} memory_limit={MEM_LIMIT} watchdog={k}", p.name, hex(&p.code), p.permissive);
+    // at most REPORTS lines per obligation for one (program, interval) - a broken loop fails at hundreds of k -, the
+    // ones with the largest `weight` (polls after the stop) first
+    let mut failures: Vec<(usize, &'static str, String, String, String)> = vec![];
+    let mut report = |weight: usize, ob: &'static str, input: String, got: String, want: String| failures.push((weight, ob, input, got, want));
+    // (1) never stopping == unmonitored; N = the poll count of this run
+    let wd = CountingWatchdog::counting(every);
+    let monitored = analyze(p, tc_config(), wd.in_rc());
     let n = wd.polls();
-    if !matches!(unmonitored, Outcome::Layout(_)) {
-        // the programs are written to be analysable; anything else is a broken premise of this driver (or of the tree)
-        witness("C13", "c13.never_stop_equals_unmonitored", input(None), format!("unmonitored run: {}", unmonitored.class()), "Ok(layout)".into());
+    if &monitored != unmonitored {
+        witness("C13", "c13.never_stop_equals_unmonitored", input("never stops".into()), monitored.class(), format!("the unmonitored result {}", unmonitored.class()));
+    }
+    let Some(acc) = account(p, every) else {
+        witness("C13", "c13.never_stop_equals_unmonitored", input("never stops".into()), "the run stage by stage failed".into(), "a layout".into());
         return (1, 0);
-    }
-    if monitored != unmonitored {
-        witness("C13", "c13.never_stop_equals_unmonitored", input(None), monitored.class(), format!("the unmonitored result {}", unmonitored.class()));
-    }
-    let wd2 = CountingWatchdog::new(every, None);
-    let again = analyze(p, wd2.in_rc());
-    if wd2.polls() != n || again != monitored {
-        witness("C13", "c13.poll_count_reproducible", input(None), format!("{} polls, then {} polls", n, wd2.polls()), "the same number of polls and the same result".into());
-        return (2, 0);
-    }
-    let acc = account(p, every).unwrap_or_default();
-    if acc.total() != n {
-        witness("C13", "c13.poll_count_reproducible", input(None), format!("{} polls stage by stage {:?}", acc.total(), acc.polls), format!("{n} polls as in analyze()"));
-    }
-    // (2) stop from poll k on
-    let mut cases = 2;
+    };
+    let mut marks = vec![acc.vm_polls];
+    for s in acc.tc_polls { marks.push(marks.last().unwrap() + s); }
+    // (2) stop from poll k on / at poll k only.  The number of polls the unification loop makes varies from run to run
+    // when poll_every > 1 (its counter does not move on empty classes and the class order follows hash order), so N
+    // is a guide for choosing k, not a promise: a run that ends before poll k was ever made must equal the unmonitored one.
+    let mut cases = 1;
     let mut worst = 0;
-    for k in stop_points(n, &acc.marks()) {
-        let wd = CountingWatchdog::new(every, Some(k));
-        let out = analyze(p, wd.in_rc());
-        cases += 1;
-        let Some(first) = wd.first_stop() else {
-            witness("C13", "c13.poll_count_reproducible", input(Some(k)), format!("only {} polls were made", wd.polls()), format!("{n} polls as in the never-stopping run"));
-            continue;
-        };
-        let stage = acc.stage_of(first);
-        reached.insert(stage);
-        if !matches!(out, Outcome::Stopped { .. }) {
-            witness("C13", "c13.stop_at_poll_k_returns_stopped", format!("{} (poll {first} is made by: {stage})", input(Some(k))), out.class(), "Err containing StoppedByWatchdog".into());
+    for k in stop_points(n, &marks) {
+        for once in [false, true] {
+            let wd = if once { CountingWatchdog::stop_once(every, k) } else { CountingWatchdog::stop_from(every, k) };
+            let desc = if once { format!("answers stop at poll {k} only") } else { format!("answers stop from poll {k} on") };
+            let out = analyze(p, tc_config(), wd.in_rc());
+            cases += 1;
+            let Some(first) = wd.first_stop() else {
+                if &out != unmonitored {
+                    report(0, "c13.never_stop_equals_unmonitored", input(format!("{desc} (only {} polls were made)", wd.polls())), out.class(), format!("the unmonitored result {}", unmonitored.class()));
+                }
+                continue;
+            };
+            let who = owner(p, every, &acc, &wd, first);
+            reached.insert(who);
+            if !matches!(out, Outcome::Stopped { .. }) {
+                let ob = if once { "c13.single_stop_answer_is_honoured" } else { "c13.stop_at_poll_k_returns_stopped" };
+                report(0, ob, format!("{} (poll {first} is made by: {who})", input(desc.clone())), out.class(), "Err containing StoppedByWatchdog".into());
+            }
+            if once { continue; }
+            let after = wd.polls() - first - 1;
+            worst = worst.max(after);
+            let bound = if who == MAIN || TC_STAGES.contains(&who) { 0 } else { MAX_POLLS_AFTER_COPY_STOP };
+            if after > bound {
+                let ob = if p.fan && who == VM_ANY { "c13.bounded_polls_after_stop.copy_stop_only_ends_thread" } else { "c13.bounded_polls_after_stop" };
+                report(after, ob, format!("{} (poll {first} is made by: {who})", input(desc)), format!("{after} more polls after the first stop answer; result {}", out.class()),
+                        format!("<= {bound} more polls"));
+            }
         }
-        let after = wd.polls() - first - 1;
-        worst = worst.max(after);
-        if after > MAX_POLLS_AFTER_STOP {
-            let ob = if p.fan { "c13.bounded_polls_after_stop.copy_stop_only_ends_thread" } else { "c13.bounded_polls_after_stop" };
-            witness("C13", ob, format!("{} (poll {first} is made by: {stage})", input(Some(k))), format!("{after} more polls after the first stop answer; result {}", out.class()),
-                    format!("<= {MAX_POLLS_AFTER_STOP} more polls"));
-        }
+    }
+    failures.sort_by(|a, b| b.0.cmp(&a.0));
+    let mut printed: std::collections::BTreeMap<&'static str, usize> = Default::default();
+    for (_, ob, input, got, want) in failures {
+        let c = printed.entry(ob).or_insert(0);
+        *c += 1;
+        if *c <= REPORTS { witness("C13", ob, input, got, want); }
+    }
+    for (ob, c) in &printed {
+        if *c > REPORTS { println!("SUPPRESSED c13 obligation={ob} program={} poll_every={every}: {} more failing stop points", p.name, c - REPORTS); }
     }
     (cases, worst)
 }
 
-#[test]
-fn c13_stop_at_every_poll() {
+fn stop_in_programs(test: &str, progs: Vec<Prog>, intervals: &[usize]) {
     std::panic::set_hook(Box::new(|_| {}));
-    let mut reached = BTreeSet::new();
     let (mut cases, mut worst) = (0, 0);
-    for p in programs() {
-        for every in INTERVALS {
-            let (c, w) = stop_everywhere(&p, every, &mut reached);
+    for p in progs {
+        // the unmonitored result: LazyWatchdog and the library's own default configuration
+        let unmonitored = analyze(&p, tc::Config::default(), LazyWatchdog.in_rc());
+        cases += 1;
+        if !matches!(unmonitored, Outcome::Layout(_)) {
+            // the programs are written to be analysable; anything else is a broken premise of this driver (or of the tree)
+            witness("C13", "c13.never_stop_equals_unmonitored", format!("program={} code={}", p.name, hex(&p.code)), format!("unmonitored run: {}", unmonitored.class()), "Ok(layout)".into());
+            continue;
+        }
+        let shared = analyze(&p, tc_config(), LazyWatchdog.in_rc());
+        if shared != unmonitored {
+            witness("C13", "c13.driver_config_matches_default", format!("program={} code={}", p.name, hex(&p.code)), shared.class(), unmonitored.class());
+        }
+        for every in intervals {
+            let mut reached = BTreeSet::new();
+            let (c, w) = stop_everywhere(&p, *every, &unmonitored, &mut reached);
             cases += c;
             worst = worst.max(w);
+            if *every == 1 {
+                // with poll_every = 1 every loop that makes at least one iteration polls, and every stage boundary is a stop point
+                let mut want: Vec<&'static str> = TC_STAGES.to_vec();
+                if p.straight || p.copies.is_empty() { want.push(MAIN); }
+                if p.straight { want.extend(p.copies.iter().map(|c| c.1.loop_name())); } else if !p.copies.is_empty() { want.push(VM_ANY); }
+                for s in want {
+                    if !reached.contains(s) {
+                        witness("C13", "c13.driver_reaches_every_loop", format!("program={} code={} poll_every=1 loop={s}", p.name, hex(&p.code)), "no poll of this loop was ever answered (it does not poll, or does no work)".into(), "interrupted at least once".into());
+                    }
+                }
+            }
         }
     }
-    for s in STAGES {
-        if !reached.contains(s) {
-            witness("C13", "c13.driver_reaches_every_loop", format!("stage {s}"), "never interrupted by any (program, interval, k)".into(), "interrupted at least once".into());
-        }
-    }
-    println!("INFO c13_stop_at_every_poll max_polls_after_stop={worst}");
-    println!("CASES c13_stop_at_every_poll {cases}");
+    println!("INFO {test} max_polls_after_stop={worst}");
+    println!("CASES {test} {cases}");
 }
+
+#[test]
+fn c13_stop_at_every_poll_main_loop_and_type_checker() { stop_in_programs("c13_stop_at_every_poll_main_loop_and_type_checker", programs()[0..2].to_vec(), &INTERVALS); }
+
+#[test]
+fn c13_stop_at_every_poll_copy_opcodes() { stop_in_programs("c13_stop_at_every_poll_copy_opcodes", programs()[2..6].to_vec(), &INTERVALS); }
+
+#[test]
+fn c13_stop_at_every_poll_return_data_and_threads() { stop_in_programs("c13_stop_at_every_poll_return_data_and_threads", programs()[6..].to_vec(), &INTERVALS); }
 
 /// FAN (see `fan_program`): the bound on polls after the stop, on programs built to defeat it
 #[test]
-fn c13_stop_in_a_fan_of_copy_threads() {
-    std::panic::set_hook(Box::new(|_| {}));
-    let mut reached = BTreeSet::new();
-    let (mut cases, mut worst) = (0, 0);
-    for width in [4usize, 12] {
-        let p = fan_program(width);
-        for every in [7usize, 100] {
-            let (c, w) = stop_everywhere(&p, every, &mut reached);
-            cases += c;
-            worst = worst.max(w);
-        }
-    }
-    println!("INFO c13_stop_in_a_fan_of_copy_threads max_polls_after_stop={worst}");
-    println!("CASES c13_stop_in_a_fan_of_copy_threads {cases}");
-}
+fn c13_stop_in_a_fan_of_copy_threads() { stop_in_programs("c13_stop_in_a_fan_of_copy_threads", vec![fan_program(4), fan_program(12)], &[7, 100]); }
 
-/// (3) polls track work, loop by loop
+/// (3) polls track work: the VM alone.  Straight-line programs of n code bytes; one bulk copy of s bytes per opcode, s over
+/// the boundaries of `step_by(32)` and of the size limits.
 #[test]
-fn c13_polls_track_work() {
+fn c13_polls_track_work_vm() {
     std::panic::set_hook(Box::new(|_| {}));
     let mut cases = 0;
-    // (a) the VM alone: straight-line programs of n instructions; one bulk copy of s bytes per opcode, s over the boundaries
-    let mut vm_progs: Vec<Prog> = vec![];
+    let mut progs: Vec<Prog> = vec![];
     for n in [1usize, 2, 6, 7, 8, 99, 100, 101, 200, 201, 1000] {
         let mut a = Asm::default();
         for _ in 0..n - 1 { a.op(JUMPDEST); }
         a.op(STOP);
-        vm_progs.push(Prog { name: format!("{n} instructions"), straight: Some(a.n), code: a.code, permissive: false, copies: vec![], fan: false });
+        progs.push(Prog::straight(format!("{n} one-byte instructions"), a, false, vec![]));
     }
     for c in [Copy::CallData, Copy::Code, Copy::ExtCode, Copy::ReturnData, Copy::Call, Copy::DelegateCall] {
         let l = c.limit() as u64;
         for s in [0u64, 1, 31, 32, 33, 64, 65, 223, 224, 225, 3199, 3200, 3201, l - 1, l, l + 1, l + 33, 1 << 16, 1 << 31] {
             let mut a = Asm::default();
-            c.emit(&mut a, s);
+            let at = c.emit(&mut a, s);
             a.op(STOP);
-            vm_progs.push(Prog { name: format!("{c:?} copy of {s} bytes"), straight: Some(a.n), code: a.code, permissive: false, copies: vec![c.iterations(s as usize)], fan: false });
+            progs.push(Prog::straight(format!("{c:?} copy of {s} bytes"), a, false, vec![(at, c, c.iterations(s as usize))]));
         }
     }
     // two copies in one program: each loop has its own counter
     let mut a = Asm::default();
-    Copy::CallData.emit(&mut a, 330);
-    Copy::Code.emit(&mut a, 750);
+    let c0 = Copy::CallData.emit(&mut a, 330);
+    let c1 = Copy::Code.emit(&mut a, 750);
     a.op(STOP);
-    vm_progs.push(Prog { name: "CallData copy of 330 bytes then Code copy of 750 bytes".into(), straight: Some(a.n), code: a.code, permissive: false,
-                         copies: vec![Copy::CallData.iterations(330), Copy::Code.iterations(750)], fan: false });
-    for p in &vm_progs {
+    progs.push(Prog::straight("CallData copy of 330 bytes then Code copy of 750 bytes".into(), a, false, vec![(c0, Copy::CallData, 11), (c1, Copy::Code, 24)]));
+    let mut failed = 0;
+    for p in &progs {
         for every in [1usize, 2, 3, 7, 32, 100, 1000] {
-            let wd = CountingWatchdog::new(every, None);
+            let wd = CountingWatchdog::counting(every);
             let r = catch_unwind(AssertUnwindSafe(|| {
                 let is = InstructionStream::try_from(p.code.as_slice()).unwrap();
                 let mut vm = VM::new(is, vm_config(p), wd.in_rc()).unwrap();
@@ -559,55 +650,67 @@ fn c13_polls_track_work() {
             }))
             .ok();
             cases += 1;
-            let n = p.straight.unwrap();
-            // `counter % poll_interval == 0` with counter = 0, 1, .., n-1: polls at 0, p, 2p, ..  =>  ceil(n / p), the first one
-            // BEFORE any work is done (that is the documented off-by-one: one poll even for a single iteration)
-            let want = ceil_div(n, every) + p.copies.iter().map(|it| ceil_div(*it, every)).sum::<usize>();
+            let n = p.code.len();
+            let want = ceil_div(n, every) + p.copies.iter().map(|c| ceil_div(c.2, every)).sum::<usize>();
+            debug_assert_eq!(want, p.vm_polls(every).len());
             if r != Some(true) || wd.polls() != want {
-                witness("C13", "c13.polls_track_work", format!("VM::execute program={} code={} poll_every={every} memory limit={MEM_LIMIT}", p.name, hex(&p.code)),
+                failed += 1;
+                if failed > 4 * REPORTS { continue; }
+                witness("C13", "c13.polls_track_work", format!("VM::execute program={} code={} poll_every={every} memory_limit={MEM_LIMIT}", p.name, hex(&p.code)),
                         format!("{} polls (execute ok: {r:?})", wd.polls()),
-                        format!("{want} = ceil({n} instructions / {every}) + sum over copy loops {:?} of ceil(iterations / {every})", p.copies));
+                        format!("{want} = ceil({n} main-loop iterations / {every}) + sum over the copy loops (iterations {:?}) of ceil(iterations / {every})", p.copies.iter().map(|c| c.2).collect::<Vec<_>>()));
             }
         }
     }
-    // (b) the whole pipeline stage by stage
+    if failed > 4 * REPORTS { println!("SUPPRESSED c13 obligation=c13.polls_track_work VM::execute: {} more failing (program, interval) pairs", failed - 4 * REPORTS); }
+    println!("CASES c13_polls_track_work_vm {cases}");
+}
+
+/// (3) polls track work: the whole pipeline, loop by loop
+#[test]
+fn c13_polls_track_work_stages() {
+    std::panic::set_hook(Box::new(|_| {}));
+    let mut cases = 0;
     for p in programs() {
         let base = account(&p, 1);
         for every in INTERVALS.into_iter().chain([3, 1000]) {
             cases += 1;
-            let input = format!("program={} code={} poll_every={every}", p.name, hex(&p.code));
-            let Some(acc) = account(&p, every) else {
-                witness("C13", "c13.polls_track_work", input, "the staged run failed".into(), "a layout".into());
+            let input = format!("program={} code={} poll_every={every} memory_limit={MEM_LIMIT}", p.name, hex(&p.code));
+            let Some(acc) = account(&p, every).filter(|a| a.ok) else {
+                witness("C13", "c13.polls_track_work", input, "the run stage by stage failed".into(), "a layout".into());
                 continue;
             };
-            if !acc.ok { witness("C13", "c13.polls_track_work", input.clone(), format!("the staged run failed after polls {:?}", acc.polls), "a layout".into()); continue; }
-            // VM: exact for straight-line programs; otherwise the main loop is checked against the p = 1 run of the same
-            // program (which counts iterations) as a band: every thread's copies poll at least once each
-            if let Some(n) = p.straight {
-                let want = ceil_div(n, every) + p.copies.iter().map(|it| ceil_div(*it, every)).sum::<usize>();
-                if acc.polls[0] != want { witness("C13", "c13.polls_track_work", format!("{input} stage=vm"), format!("{} polls", acc.polls[0]), format!("{want}")); }
+            // VM: exact for straight-line programs; otherwise a band derived from the poll_every = 1 run of the same program,
+            // which counts the iterations of all VM loops together
+            if p.straight {
+                let want = p.vm_polls(every).len();
+                if acc.vm_polls != want {
+                    witness("C13", "c13.polls_track_work", format!("{input} loop=vm (main loop over {} bytes, copy loops of {:?} iterations)", p.code.len(), p.copies.iter().map(|c| c.2).collect::<Vec<_>>()),
+                            format!("{} polls", acc.vm_polls), format!("{want}"));
+                }
             } else if let Some(b) = &base {
-                let (lo, hi) = (ceil_div(b.polls[0], every), b.polls[0]);
-                if acc.polls[0] < lo || acc.polls[0] > hi { witness("C13", "c13.polls_track_work", format!("{input} stage=vm"), format!("{} polls", acc.polls[0]), format!("between {lo} and {hi} ({} iterations with poll_every=1)", b.polls[0])); }
+                let (lo, hi) = (ceil_div(b.vm_polls, every), b.vm_polls);
+                if acc.vm_polls < lo || acc.vm_polls > hi {
+                    witness("C13", "c13.polls_track_work", format!("{input} loop=vm"), format!("{} polls", acc.vm_polls), format!("between {lo} and {hi} ({} iterations counted with poll_every=1)", b.vm_polls));
+                }
             }
-            for s in [1usize, 2, 3, 5] {
+            for s in [0usize, 1, 2, 4] {
+                if s == 4 && acc.unify_loops > 2 {
+                    println!("INFO c13_polls_track_work_stages TypeChecker::unify started {} polled loops; the layout loop's share is not attributed", acc.unify_loops);
+                    continue;
+                }
                 let w = acc.work[s].unwrap();
                 let want = ceil_div(w, every);
-                if acc.polls[s] != want {
-                    witness("C13", "c13.polls_track_work", format!("{input} stage={}", STAGES[s]), format!("{} polls for {w} iterations", acc.polls[s]), format!("{want} = ceil({w} / {every})"));
+                if acc.tc_polls[s] != want {
+                    witness("C13", "c13.polls_track_work", format!("{input} loop={}", TC_STAGES[s]), format!("{} polls for {w} iterations", acc.tc_polls[s]), format!("{want} = ceil({w} / {every})"));
                 }
             }
-            // unification: every pass over the forest starts... the counter only moves on non-empty classes, so the
-            // exact count is not a function of anything visible from outside; at least one poll per run and never fewer
-            // than a p-th of the iterations counted with poll_every = 1
-            if let Some(b) = &base {
-                let hi = b.polls[4];
-                let lo = 1.max(0);
-                if acc.polls[4] < lo || acc.polls[4] > hi {
-                    witness("C13", "c13.polls_track_work", format!("{input} stage=unification"), format!("{} polls", acc.polls[4]), format!("between {lo} and {hi}"));
-                }
+            // unification: its counter only moves on non-empty classes and it polls on every visit while the counter sits on a
+            // multiple of the interval, so the count is not a function of anything visible from outside: at least one poll
+            if acc.tc_polls[3] < 1 {
+                witness("C13", "c13.polls_track_work", format!("{input} loop=unification"), "0 polls".into(), ">= 1".into());
             }
         }
     }
-    println!("CASES c13_polls_track_work {cases}");
+    println!("CASES c13_polls_track_work_stages {cases}");
 }
